@@ -56,9 +56,13 @@ def c18_index_scenarios(flavour):
     nodes = [[KEYS[i], {'s': f'n{i}'}] for i in range(4)]
     for ins in ([], [0], [3, 0], [1, 2]):
         for k in (0, 1, ABSENT):
-            steps = [['g_new']] + [['g_insert', i] for i in ins] + [['g_index', k]]
-            yield (flavour, 'index'), {'flavour': flavour, 'nodes': nodes, 'steps': steps, 'hash_free': [],
-                                       'meta': {'family': 'index'}}
+            # g[k] and (directed flavours) g[&k]; containers made by new(), default() and with_capacity()
+            news = [['g_new'], ['g_new', 'default']] + ([['g_new', 'with_capacity']] if flavour == 'digraph' else [])
+            for new in news:
+                for by_ref in ((False, True) if flavour in DIRECTED else (False,)):
+                    steps = [new] + [['g_insert', i] for i in ins] + [['g_index', k, by_ref]]
+                    yield (flavour, 'index' + ('-ref' if by_ref else '')), {'flavour': flavour, 'nodes': nodes, 'steps': steps, 'hash_free': [],
+                                                                             'meta': {'family': 'index'}}
 
 
 ATTR_SPECS = [
